@@ -10,12 +10,15 @@ func init() {
 		if c.Tier == "thorough" {
 			cfg.Cross = "cvc5"
 		}
+		site := &HarnessCfg{Name: "VerifC15_LoadSite", Pkg: repoMod + "/pkg/diff", Solver: "z3", EngineReplay: true,
+			Params: map[string]int64{"entries": 1, "maxlen": params["maxlen"]}, Unwind: 64}
 		c.Assumptions = append(c.Assumptions,
 			"environment entries are non-empty, NUL-free, 7-bit ASCII (case mapping modelled for ASCII only; non-ASCII keys such as the long-s spelling are outside the claim)",
 			"an entry defines key K iff it starts with K followed by '='; effective value = value of the last defining entry, checked under exact-case and ASCII-case-insensitive key comparison",
 			"os.Environ is a stub returning the symbolic entries (stable across the two calls GetHardenedEnv makes)",
 			"bounds: entries and maxlen as listed in coverage.harnesses[].params; larger environments are outside the claim",
-			"that both packages.Load call sites pass GetHardenedEnv() as Env is not re-checked here")
-		c.runModeT([]string{"pkg/diff"}, []*HarnessCfg{cfg})
+			"call-site clause (VerifC15_LoadSite): packages.Load is replaced by a recorder of Config.Env that always fails; every call issued by diff.loadPackagesFromSource must carry exactly GetHardenedEnv()'s result (1 ambient entry, fixed file name /a/x.go); counterexamples are confirmed by concrete re-execution of the SSA because the real loader cannot be observed natively",
+			"the second call site, cli.loadPackagesWithDeps, hands its Config to an injected PackageLoader and is not re-checked here")
+		c.runModeT([]string{"pkg/diff"}, []*HarnessCfg{cfg, site})
 	}
 }
